@@ -93,6 +93,20 @@ def prove_guards(report: Report):
 
 
 # ---- whole router, bounded ------------------------------------------------------------------------------------
+def bare_handler(pt, tag: bytes, kind: int):
+    """the four documented forms of a bare-call action: a none-typed expression (with / without its own exit), a Subroutine(none) without
+    parameters, a void ABIReturnSubroutine without parameters"""
+    if kind == 0:
+        return pt.Seq(pt.Log(pt.Bytes(tag)))
+    if kind == 1:
+        return pt.Seq(pt.Log(pt.Bytes(tag)), pt.Approve())
+
+    def h():
+        return pt.Log(pt.Bytes(tag))
+    h.__name__ = "bare_" + "".join(ch if ch.isalnum() else "_" for ch in tag.decode())
+    return pt.Subroutine(pt.TealType.none)(h) if kind == 2 else pt.ABIReturnSubroutine(h)
+
+
 # directed registrations for the first method / the bare actions (the generator's uniform choice reaches these with probability 5^-5)
 DIRECTED = [None, "all:3", "all:1", "all:2", "default", "bare-all:3", "bare-all:1", "bare-all:2"] + [f"single:{oc}:{c}" for oc in range(5) for c in (1, 2, 3)]
 
@@ -119,7 +133,7 @@ def router_case(job):
             bare_cfg[name] = c
             if c:
                 tag = f"bare:{name}".encode()
-                kwargs[name] = pt.OnCompleteAction(action=pt.Seq(pt.Log(pt.Bytes(tag))), call_config=pt.CallConfig(c))
+                kwargs[name] = pt.OnCompleteAction(action=bare_handler(pt, tag, r.randrange(4)), call_config=pt.CallConfig(c))
         clear_kind = r.choice(["none", "approve", "logreject"])
         clear = {"none": None, "approve": pt.Seq(pt.Log(pt.Bytes("clear")), pt.Approve()),
                  "logreject": pt.Reject()}[clear_kind]
@@ -224,7 +238,7 @@ def run(report: Report, tier, seed):
     rb = [r for r in res if r["problems"]]
     report.bounded.append(Bounded(function="Router.compile_program (approval + clear-state) on the spec AVM",
                                   contract="handler H, and only H, runs exactly when the call matches H's registration; every other call is rejected; clear-state runs the given action or rejects; contract lists exactly the registered methods",
-                                  bound=f"{len(jobs)} generated routers (seed {seed}; 0..3 methods, bare actions per OnCompletion, arbitrary CallConfigs; plus directed registrations: uniform ALL/CALL/CREATE, the default MethodConfig, each single OnCompletion x CallConfig, uniform bare actions) x all calls (bare / each selector / unknown / short selector) x OnCompletion 0..5 x app id zero / non-zero, versions 6..10",
+                                  bound=f"{len(jobs)} generated routers (seed {seed}; 0..3 methods, bare actions per OnCompletion in every documented handler form (expression with / without its own exit, Subroutine, void ABIReturnSubroutine), arbitrary CallConfigs; plus directed registrations: uniform ALL/CALL/CREATE, the default MethodConfig, each single OnCompletion x CallConfig, uniform bare actions) x all calls (bare / each selector / unknown / short selector) x OnCompletion 0..5 x app id zero / non-zero, versions 6..10",
                                   cases=sum(r["ran"] for r in res), distinct_nontrivial=len(jobs), failures=len(rb)))
     report.extra["explanation"] = "E x P: guards of all 4 + 1024 configurations proved for all uint64 inputs; B: whole routers on the spec AVM"
     report.settle_refuted(lambda fn, obs: ({"input": {"seed": rb[0]["seed"], "version": rb[0]["version"], "directed": rb[0].get("directed")}, "problems": rb[0]["problems"][:3]} if rb else None))
